@@ -269,7 +269,7 @@ Definition make_pipe (c : conn) (b : rbuf) : sres :=
     end
   else Stop c b [].
 
-(* mark_done(request=rq, response=rs), including the Http1Server override *)
+(* mark_done(request=rq, response=rs), including the Http1Server and Http1Client overrides *)
 Definition mark_done (c : conn) (b : rbuf) (rq rs : bool) : sres :=
   let c := set_done_flags c (c_request_done c || rq) (c_response_done c || rs) in
   if c_request_done c && c_response_done c then
@@ -289,7 +289,9 @@ Definition mark_done (c : conn) (b : rbuf) (rq rs : bool) : sres :=
   else
     match c_role c with
     | Server => if c_request_done c && negb (c_response_done c) then Stop (set_state c Wait) b [] else Stop c b []
-    | Client => Stop c b []
+    | Client =>
+        (* Http1Client.mark_done override: the response is complete but the request is still being sent *)
+        if c_response_done c && negb (c_request_done c) then Stop (set_state c Wait) b [] else Stop c b []
     end.
 
 (* read_body: the h11.ProtocolError branch *)
